@@ -325,11 +325,20 @@ where
         self.retain_mut(|i, p| predicate(&*i, &*p));
     }
 
-    pub fn retain_mut<F>(&mut self, predicate: F)
+    pub fn retain_mut<F>(&mut self, mut predicate: F)
     where
         F: FnMut(&mut I, &mut P) -> bool,
     {
-        self.map.retain2(predicate);
+        // Run the predicate (user code that may panic) before touching the
+        // structure of the map: a panic in the middle of `retain2` would
+        // leave the map out of sync with the heap and qp tables
+        let keep: Vec<bool> = self
+            .map
+            .iter_mut2()
+            .map(|(item, priority)| predicate(item, priority))
+            .collect();
+        let mut keep = keep.into_iter();
+        self.map.retain2(|_, _| keep.next().unwrap_or(true));
         if self.map.len() != self.size {
             self.size = self.map.len();
             self.heap = (0..self.size).map(Index).collect();
